@@ -138,6 +138,25 @@ fn run_matrix(name: &str, m: &[Vec<i64>], cases: usize, errors: bool, draws: u64
     let sel = Lexicase::new(cases);
     let pop_s: Vec<_> = m.iter().enumerate().map(|(i, r)| ind_s(i as u32, r)).collect();
     let pop_e: Vec<_> = m.iter().enumerate().map(|(i, r)| ind_e(i as u32, r)).collect();
+    for mut hr in TraceRng::hostile_variants(fnv_str(&cfg) % 1000) {
+        for _ in 0..4 {
+            rep.eval();
+            let r = catch(|| {
+                if errors {
+                    sel.select(&pop_e, &mut hr).map(|w| w.genome as usize).map_err(|e| format!("{e:?}"))
+                } else {
+                    sel.select(&pop_s, &mut hr).map(|w| w.genome as usize).map_err(|e| format!("{e:?}"))
+                }
+            });
+            match r {
+                Ok(Ok(w)) if p[w] > 0.0 && (cases == 0 || dominated(&good, cases, w).is_none()) => {}
+                other => {
+                    rep.violation("C08/extreme-stream", || json!({"config": cfg, "matrix": m, "law": p, "observed": format!("{other:?}"), "meaning": "under an extreme random stream the winner lies outside the support of the law, is dominated, or selection failed"}));
+                    return;
+                }
+            }
+        }
+    }
     for d in 0..draws {
         rep.eval();
         let r = catch(|| {
